@@ -317,9 +317,14 @@ def eval_cases(arg):
             idx = TaskIndex(pathlib.Path(root))
             got, exc = "accept", None
             try:
-                idx.load_transitive_closure(TaskIdentifier.from_str(case["target"]))
+                with common.cpu_budget(3):
+                    idx.load_transitive_closure(TaskIdentifier.from_str(case["target"]))
             except ConductorError as ex:
                 got, exc = "reject", ex
+            except common.CpuBudgetExceeded as ex:
+                got, exc = "crash", ex
+                out["violations"].append({"key": "C15:loader-does-not-terminate", "msg": "%s: no result after 3 s of CPU time\n%s" % (case["why"], case["files"].get("COND")), "witness": {"engine": "E5", "case": case}})
+                break
             except BaseException as ex:  # noqa
                 got, exc = "crash", ex
             R["c15_loads"] = R.get("c15_loads", 0) + 1
